@@ -247,9 +247,6 @@ struct ObjValueInner {
 thread_local! {
 	static RUNNING_ASSERTIONS: RefCell<FxHashSet<ObjValue>> = RefCell::default();
 }
-fn is_asserting(obj: &ObjValue) -> bool {
-	RUNNING_ASSERTIONS.with_borrow(|v| v.contains(obj))
-}
 /// Returns false if already asserting
 fn start_asserting(obj: &ObjValue) -> bool {
 	RUNNING_ASSERTIONS.with_borrow_mut(|v| v.insert(obj.clone()))
@@ -586,6 +583,10 @@ impl ObjValue {
 	}
 
 	fn get_idx(&self, key: IStr, core: CoreIdx) -> Result<Option<Val>> {
+		// Assertions are checked before the field is marked as being computed, so that an
+		// assertion reading this very field computes (and caches) it normally, and a field
+		// which really depends on itself is always reported as infinite recursion.
+		self.run_assertions()?;
 		let cache_key = (key.clone(), core);
 		{
 			let mut cache = self.0.value_cache.borrow_mut();
@@ -594,9 +595,7 @@ impl ObjValue {
 				Entry::Occupied(v) => match v.get() {
 					CacheValue::Cached(v) => return v.clone(),
 					CacheValue::Pending => {
-						if !is_asserting(self) {
-							bail!(InfiniteRecursionDetected);
-						}
+						bail!(InfiniteRecursionDetected);
 					}
 				},
 				Entry::Vacant(v) => {
